@@ -1921,6 +1921,7 @@ def c18m(F, R):
             R.bad("dump|debug", "`--debug` no longer prints the graph", loc(dbg[0]))
 
 @rule("C18", "C18.o.marker-spans-the-reported-columns", floor=1)
+@rule("C09", "C09.j.marker-spans-the-reported-columns", floor=1)
 def c18o(F, R):
     """the marker under a source excerpt is as long as the reported range: ranges end ON their last character, so the run of `^` has `end - start + 1` characters. Read off `format_region` as a linear form in its `start`/`end` parameters"""
     from .facts import linform, lin_eq, LinUnx, local_inits
@@ -1966,6 +1967,7 @@ def c18o(F, R):
 
 
 @rule("C18", "C18.f.excerpt-gutter-matches-printed-number", floor=1)
+@rule("C09", "C09.i.excerpt-gutter-matches-printed-number", floor=1)
 def c18f(F, R):
     """in the pretty excerpt the blank gutter of the marker line is as wide as the line-number gutter above it: its width is computed from the very value that is printed as the line number (same binding) plus the literal characters printed before the number; otherwise the marker slides off the reported columns on lines 10, 100, ..."""
     fr = [q for q in F.fns if q.endswith("PrettyPrint::format_region")]
@@ -2346,6 +2348,34 @@ def c07n(F, R):
             R.ok(f"loop#{n}|leaves", detail="a token that is not taken ends the list", where=loc(real_leaves[0]))
         else:
             R.bad(f"loop#{n}|final-else", "the value-list loop has no way out for a token that is neither a line end nor a number: nothing is consumed and the loop spins for ever on that token", loc(lp))
+        # once the list has stepped over a line end the statement can no longer fail: the recovery that follows an error skips
+        # to the *next* newline, which by now is the end of the following line
+        x, after = lp, []
+        while id(x) in pm:
+            par = pm[id(x)]
+            if par.get("k") == "Block":
+                seen_ = False
+                for st in par.get("stmts", []) + ([par["expr"]] if par.get("expr") is not None else []):
+                    if seen_:
+                        after.append(st)
+                    elif st is x or any(y is x for y in walk(st, pats=False)):
+                        seen_ = True
+            if par.get("k") in ("Match", "Closure") and par.get("src") in (None, "Normal"):
+                break   # the arm of the token-kind dispatch: what follows belongs to other statements
+            x = par
+        late = []
+        for st in after:
+            for y in walk(st, pats=False):
+                if y.get("k") == "Match" and y.get("src") == "TryDesugar":
+                    late.append(y)
+                if y.get("k") == "Ret" and any(c_.get("k") == "Call" and short(callee_of(c_) or "") == "Err" for c_ in walk(y.get("e") or {}, pats=False)) and not any(y is z for t_ in walk(st, pats=False) if t_.get("k") == "Match" and t_.get("src") == "TryDesugar" for z in walk(t_, pats=False)):
+                    late.append(y)
+                if y.get("k") == "Call" and short(callee_of(y) or "") == "Err" and (callee_of(y) or "").startswith("core::result") and st is y:
+                    late.append(y)
+        if late:
+            R.bad(f"loop#{n}|error-after-the-line-end", "the statement can still end in an error after its value list has stepped over the line end: the error recovery then skips to the next newline - the end of the *following* line - and that line disappears without nodes or a diagnostic of its own", loc(late[0]))
+        else:
+            R.ok(f"loop#{n}|no-error-after-the-line-end", detail="nothing after the list loop can fail", where=loc(lp))
     if n == 0:
         R.bad("shape", "UNEXTRACTABLE: no decoder loop that steps over newline tokens (the data value list) found", f["sp"])
 
